@@ -1,0 +1,32 @@
+//! Read-only observation hooks for the verification harness in /verif.
+//! Compiled only with `--cfg ishape_rust_itree_verif`; nothing here is part of
+//! the shipped library and nothing here mutates a collection.
+
+/// One arena slot of a red-black tree (`item` is the key, or for the set the
+/// whole stored value).
+#[derive(Clone, Debug)]
+pub struct VerifSlot<T> {
+    pub parent: u32,
+    pub left: u32,
+    pub right: u32,
+    pub red: bool,
+    pub item: T,
+}
+
+/// Physical state of an arena-backed tree: root, every slot, the free list
+/// (in stack order) and the free list's capacity.
+#[derive(Clone, Debug)]
+pub struct VerifTree<T> {
+    pub root: u32,
+    pub slots: Vec<VerifSlot<T>>,
+    pub unused: Vec<u32>,
+    pub unused_capacity: usize,
+}
+
+/// One physically stored copy of a value in the segment tree.
+#[derive(Clone, Debug)]
+pub struct VerifSegCopy<V> {
+    pub place: usize,
+    pub mask: u64,
+    pub val: V,
+}
